@@ -80,45 +80,9 @@ def check_obligations(prop, res):
     with open(os.path.join(V.BUILD, "logs", f"{prop.pid}-make.log"), "w") as f:
         f.write("\n".join(logs))
     return ok_all
-def coq_files_of(prop):
-    """Prop.coq is one Properties file or a list of them (several builders add files to one property)."""
-    return [prop.coq] if isinstance(prop.coq, str) else list(prop.coq)
 
 
-def check_obligations(prop, res):
-    """Re-check the property's theorems against the regenerated Gen files."""
-    rels = coq_files_of(prop)
-    names = [n for rel in rels for n in V.theorem_names(rel)]
-    res.obligations = len(names)
-    res.theorems = names
-    ok, out = V.coq_make([rel[:-2] + ".vo" for rel in rels])
-    with open(os.path.join(V.BUILD, "logs", f"{prop.pid}-make.log"), "w") as f:
-        f.write(out)
-    if not ok:
-        loc = V.locate_failure(out) or {"file": rels[0], "statement": None, "error": out[-800:]}
-        res.broken.append({"kind": "obligation", "name": f"{loc.get('file')}:{loc.get('statement')}", "detail": loc})
-        V.log(f"proof obligation broken: {loc.get('file')} {loc.get('statement')}")
-        return False
-    axioms, nblocks = set(), 0
-    for rel in rels:
-        ok, out = V.coqc_file(rel)
-        if not ok:
-            loc = V.locate_failure(out) or {"file": rel, "statement": None, "error": out[-800:]}
-            res.broken.append({"kind": "obligation", "name": f"{loc.get('file')}:{loc.get('statement')}", "detail": loc})
-            return False
-        blocks = V.parse_assumptions(out)
-        nblocks += len(blocks)
-        axioms |= set(a for b in blocks for a in b)
-    axioms = sorted(axioms)
-    res.assumptions = axioms
-    res.assumption_blocks = nblocks
-    unexpected = [a for a in axioms if a not in prop.allowed_axioms]
-    if unexpected:
-        res.broken.append({"kind": "obligation", "name": "Print Assumptions allow-list",
-                           "detail": {"unexpected_axioms": unexpected}})
-        return False
-    res.discharged = len(names)
-    return True
+coq_files_of = coq_list
 
 
 def run_stream(prop, res, sc, workdir):
@@ -249,8 +213,7 @@ def run(prop, res):
     workdir = os.path.join(V.BUILD, "run", f"{prop.pid}-{res.tier}")
     os.makedirs(workdir, exist_ok=True)
     os.makedirs(os.path.join(V.BUILD, "logs"), exist_ok=True)
-    checker_cmd = ("; ".join(f"make -C coq -j16 {rel[:-2]}.vo && coqc -Q coq Chess3 coq/{rel}" for rel in coq_list(prop)) +
-    rels = coq_files_of(prop)
+    rels = coq_list(prop)
     checker_cmd = (f"make -C coq -j16 {' '.join(r[:-2] + '.vo' for r in rels)} && "
                    + " && ".join(f"coqc -Q coq Chess3 coq/{r}" for r in rels) +
                    "  (Print Assumptions under every theorem; hygiene grep over coq/**/*.v)")
@@ -280,7 +243,6 @@ def run(prop, res):
         rc, out = V.sh(["coqchk", "-silent", "-o", "-Q", ".", "Chess3"] +
                        ["Chess3." + rel[:-2].replace("/", ".") for rel in coq_list(prop)],
                        cwd=V.COQ, timeout=5400)
-                       ["Chess3." + r[:-2].replace("/", ".") for r in rels], cwd=V.COQ, timeout=5400)
         with open(os.path.join(V.BUILD, "logs", f"{prop.pid}-coqchk.log"), "w") as f:
             f.write(out)
         res.notes.append("coqchk -silent -o: " + ("ok" if rc == 0 else "FAILED") + "; " +
@@ -587,7 +549,7 @@ SEARCH_TRUSTED = [
 ]
 
 reg(Prop("C06", "Search returns a legal move unless the game is over; board left untouched",
-         ["Properties/C06.v"],
+         ["Properties/C06.v", "Properties/C06_skel.v"],
          [StreamCfg("c06", 20000, 150000, judge="judge_c06", model=False,
                     rule="40 fixed roots (in check, single reply, promotion, en passant, clocks 97..101, 2nd/3rd/4th occurrence "
                          "through histories, mate, stalemate, 16 queens) x {every hard node budget k in 0..300 (quick) / 0..2000+ "
@@ -600,7 +562,7 @@ reg(Prop("C06", "Search returns a legal move unless the game is over; board left
           StreamCfg("c06arg", 4000, 100000,
                     rule="UCI driver with a recording search: go depth <text> for listed texts, every integer in -700..700, "
                          "neighbourhoods of +-2^7..2^62, random int64, digit strings up to 30 digits, garbage; model = uci_go_depth")],
-         trusted=SEARCH_TRUSTED,
+         trusted=SEARCH_TRUSTED + SKEL_TRUSTED,
          assumptions=["C06_null_only_final and C06_move carry explicit hypotheses about the root call's answer (in-window answer: "
                       "its line starts with a playable root move; an empty line at depth >= 1 only on a final root); "
                       "store_ok (DESIGN O2: the 2048-slot move store is not overrun) is not proved, only hunted",
@@ -608,7 +570,7 @@ reg(Prop("C06", "Search returns a legal move unless the game is over; board left
          design_ref="5/C06"))
 
 reg(Prop("C07", "Reported variations are legal lines and agree with the move played",
-         ["Properties/C07.v"],
+         ["Properties/C07.v", "Properties/C07_skel.v"],
          [StreamCfg("c07", 8000, 60000, judge="judge_c07", model=False,
                     rule="the C06 request sweep; every info line parsed and every variation replayed move by move on the Go board; "
                          "non-trivial = non-final root"),
@@ -622,14 +584,14 @@ reg(Prop("C07", "Reported variations are legal lines and agree with the move pla
                          "the real PV buffer through VerifNewPV vs Model/Pv.v; all 64 lines compared"),
           StreamCfg("c07score", 65536, 65536,
                     rule="chess.Score.String for all 65536 int16 scores vs Model/Pv.v score_string")],
-         trusted=SEARCH_TRUSTED,
+         trusted=SEARCH_TRUSTED + SKEL_TRUSTED,
          assumptions=["legality of the reported line is proved for the buffer mechanics (line(ply) = m :: line(ply+1)) and observed on "
                       "the real search (c07/c07uci); the induction over the real search tree is Layer A",
                       "no claim about the move returned when no non-empty variation was reported (abort before the first completed depth >= 1)"],
          design_ref="5/C07"))
 
 reg(Prop("C08", "Search is reproducible and never overspends its node budget",
-         ["Properties/C08.v"],
+         ["Properties/C08.v", "Properties/C08_skel.v"],
          [StreamCfg("c08", 150, 1000, judge="judge_c08", model=False,
                     rule="games of 4..17 plies (thorough 10..90) on two fresh engines run concurrently under busy goroutines with soft "
                          "node limits (some with depth limits / hard caps), compared on move, score, ponder, nodes and every printed "
@@ -637,7 +599,7 @@ reg(Prop("C08", "Search is reproducible and never overspends its node budget",
                          "counter compared bucket by bucket; identical follow-up searches compared"),
           StreamCfg("c08budget", 5000, 60000, judge="judge_c08budget", model=False,
                     rule="the C06 request sweep (every hard budget k): Counters.Nodes <= k")],
-         trusted=SEARCH_TRUSTED + [
+         trusted=SEARCH_TRUSTED + SKEL_TRUSTED + [
              "determinism with respect to scheduling and wall clock is OBSERVED (two engines in parallel goroutines under CPU load), not proved: "
              "the Go runtime is outside the model; that one Search instance is used by one goroutine only is a reading of the source",
              "the engine's private fields tt and ranker are read by the harness through reflect/unsafe for the state comparison (no hook needed)"],
